@@ -81,8 +81,11 @@ func newSeqBed(hosts, conns int, graph bool) (*seqBed, error) {
 	}
 	bed.OnHook(nil)
 	sb := &seqBed{bed: bed, scripts: NewScripts(), hosts: hosts, conns: conns}
+	// error answers come plain, with warnings, with a custom payload or with a tracing id (chosen by the token), and - for
+	// two thirds of the (hosts, conns) shapes - compressed: the retry decision must not depend on how the error is dressed
+	sb.scripts.Decorate = true
 	bed.Cluster.SetScript(sb.scripts.Func())
-	sb.cl, err = bed.ReadyClient(primitive.ProtocolVersion4, "")
+	sb.cl, err = bed.ReadyClient(primitive.ProtocolVersion4, []string{"", "lz4", "snappy"}[(hosts+conns)%3])
 	if err != nil {
 		bed.Close()
 		return nil, err
@@ -121,7 +124,7 @@ func (sb *seqBed) runSeq(kind ReqKind, idem bool, seq []model.Outcome) (tok stri
 		}
 	}
 	if lost {
-		WaitHealed(sb.bed, sb.hosts*sb.conns, 10*time.Second)
+		WaitHealed(sb.bed, sb.hosts*sb.conns*len(sb.bed.Proxy.VerifSessions()), 10*time.Second)
 	}
 	return
 }
@@ -210,6 +213,12 @@ func checkSeq(r *mon.Result, prop string, sc seqCase, truthIdem bool, tok string
 func replyInfo(f *rawcql.Frame) ReplyInfo {
 	if f == nil {
 		return ReplyInfo{Kind: "(none)"}
+	}
+	if f.Flags.Contains(primitive.HeaderFlagCompressed) { // the sequence beds use clients with and without compression
+		if ri := DecodeReply("lz4", f); ri.Err == nil {
+			return ri
+		}
+		return DecodeReply("snappy", f)
 	}
 	return DecodeReply("", f)
 }
